@@ -3,10 +3,16 @@
 (1) lock-granularity explorer: every scheduling point a Get request exposes (before / after each outermost acquire of the MDIB
     lock and of the table locks, while the reader does not hold the MDIB lock) x 1..2 complete foreign transactions of several
     kinds, run synchronously at that point (deterministic, enumerated completely).
-(2) stress: reader and writer threads with a tiny switch interval.
+(2) stress: reader and writer threads with a tiny switch interval (loop-back and REAL sockets: the library's threaded HTTP server + http.client).
+(3) gate scheduler (vf/c07_sched.py): 1-3 request THREADS parked at their scheduling points, 1-4 transactions between any two steps; request
+    templates include context state handles, unknown / duplicate handles, the MDS handles of a two-MDS MDIB and handles that are created /
+    deleted by the interleaved transaction; provider option contextstates_in_getmdib=False; also over real sockets (the server threads are parked).
+(4) writer-side points: a transaction thread is parked at every table-lock event INSIDE its commit and a request arrives: it has to wait
+    (or at least answer with the content of a committed version).
 Oracle: the per-version snapshot history recorded inside the commit critical section; every entity in a response must have the
 content / counters of ``by_version[v]`` for the MdibVersion v stated in the response, and the selected set must be the one that
-existed at v.  Requests go through the real consumer service clients over the loop-back transport.
+existed at v (reference selection: expected_selection()).  Requests go through the real consumer service clients; every answer is checked
+twice: as the library's message reader delivers it AND by an own reading of the bytes (handles + version counters, inner msg:Mdib version group).
 """
 from __future__ import annotations
 
@@ -20,9 +26,11 @@ from sdc11073 import observableproperties as properties
 from .. import core, mdibops
 from ..history import History, canon, canon_descriptor, first_difference, tolerant_equal
 from ..mdibharness import MDIB_FILES, World
+from ..c07_sched import Actor, Sched
 from ..sched import Instrumented
 
 MODULE = 'vf.props.c07'
+MAX_POINTS_PER_REQUEST = 8
 
 
 class LiveHistory(History):
@@ -33,14 +41,140 @@ class LiveHistory(History):
         super().__init__(mdib)
         properties.strongbind(mdib, transaction=self._on_commit)
 
+    sched = None  # a c07_sched.Sched: the harness' own table reads inside the commit are no scheduling points
+
     def _on_commit(self, tr):
         if self.mdib.mdib_version not in self.by_version:
-            with self.lock:
-                self.record()
+            if self.sched is not None:
+                self.sched.quiet.on = True
+            try:
+                with self.lock:
+                    self.record()
+            finally:
+                if self.sched is not None:
+                    self.sched.quiet.on = False
+
+    def record(self):
+        s = super().record()
+        s['container_versions'] = (self.mdib.mddescription_version, self.mdib.mdstate_version)
+        return s
 
 
-def check_response(ctx, hist, kind, handles, result, detail, mds_handles, single_mds=True):
-    """compare one response with the snapshot of the version it states."""
+PM_NS = 'http://standards.ieee.org/downloads/11073/11073-10207-2017/participant'
+MSG_NS = 'http://standards.ieee.org/downloads/11073/11073-10207-2017/message'
+S12_NS = 'http://www.w3.org/2003/05/soap-envelope'
+DEFAULT_CFG = {'ctx_in_getmdib': True}
+
+
+def _descr_parent(c):
+    return c[2][1]
+
+
+def _descr_type(c):
+    return c[3][1] or ''
+
+
+def _mds_of(snap, descr_handle):
+    """handle of the MDS a descriptor belongs to at this version (parent chain of the snapshot), None when the chain is broken."""
+    h = descr_handle
+    for _ in range(64):
+        c = snap['descr'].get(h)
+        if c is None:
+            return None
+        if _descr_type(c).endswith('}MdsDescriptor'):
+            return h
+        h = _descr_parent(c)
+    return None
+
+
+def expected_selection(snap, kind, handles, cfg):
+    """reference selection (BICEPS message model rules as the handlers document them) evaluated on the snapshot of ONE version.
+    -> ({key: canonical state}, None) for the state requests, (None, True|False = all descriptors | none) for GetMdDescription."""
+    with_ctx = cfg.get('ctx_in_getmdib', True)
+    ctx_by_descr = {}
+    for ch, c in snap['ctx'].items():
+        ctx_by_descr.setdefault(dict(c[1]).get('DescriptorHandle'), []).append(ch)
+    want = {}
+    if kind == 'GetMdDescription':
+        return None, (not handles or any(h in snap['descr'] for h in handles))
+    if kind == 'GetMdib':
+        want = {('state', h): c for h, c in snap['states'].items()}
+        if with_ctx:
+            want.update({('ctx', h): c for h, c in snap['ctx'].items()})
+        return want, None
+    if kind == 'GetMdState':
+        if not handles:
+            want = {('state', h): c for h, c in snap['states'].items()}
+            if with_ctx:
+                want.update({('ctx', h): c for h, c in snap['ctx'].items()})
+            return want, None
+        for h in handles:
+            if with_ctx and h in snap['ctx']:
+                want[('ctx', h)] = snap['ctx'][h]
+                continue
+            if h in snap['states']:
+                want[('state', h)] = snap['states'][h]
+            if with_ctx:
+                for ch in ctx_by_descr.get(h, []):
+                    want[('ctx', ch)] = snap['ctx'][ch]
+        return want, None
+    # GetContextStates
+    if not handles:
+        return {('ctx', h): c for h, c in snap['ctx'].items()}, None
+    for h in handles:
+        if h in snap['ctx']:
+            want[('ctx', h)] = snap['ctx'][h]
+        elif ctx_by_descr.get(h):
+            for ch in ctx_by_descr[h]:
+                want[('ctx', ch)] = snap['ctx'][ch]
+        elif h in snap['descr'] and _descr_type(snap['descr'][h]).endswith('}MdsDescriptor'):
+            # R5042: all context states that are part of this MDS
+            for dh, chs in ctx_by_descr.items():
+                if _mds_of(snap, dh) == h:
+                    for ch in chs:
+                        want[('ctx', ch)] = snap['ctx'][ch]
+    return want, None
+
+
+def _int(v):
+    return int(v) if v not in (None, '') else 0
+
+
+def wire_view(raw: bytes):
+    """independent reading of the answer's bytes: version attributes, (handle, counters) of every state / descriptor element."""
+    from lxml import etree
+    root = etree.fromstring(raw)
+    body = root.find(f'{{{S12_NS}}}Body')
+    msg = body[0]
+    view = {'msg': msg, 'version': (_int(msg.get('MdibVersion')), msg.get('SequenceId'), None if msg.get('InstanceId') is None else int(msg.get('InstanceId'))),
+            'states': [], 'descr': [], 'inner': None, 'description_version': None, 'state_version': None}
+    mdib_node = msg.find(f'{{{MSG_NS}}}Mdib')
+    if mdib_node is not None:
+        view['inner'] = (_int(mdib_node.get('MdibVersion')), mdib_node.get('SequenceId'),
+                         None if mdib_node.get('InstanceId') is None else int(mdib_node.get('InstanceId')))
+    for node in msg.iter(f'{{{PM_NS}}}MdDescription', f'{{{MSG_NS}}}MdDescription'):
+        if node.get('DescriptionVersion') is not None:
+            view['description_version'] = int(node.get('DescriptionVersion'))
+        for el in node.iterdescendants():
+            if isinstance(el.tag, str) and el.get('Handle') is not None and el.tag.startswith(f'{{{PM_NS}}}'):
+                view['descr'].append((el.get('Handle'), _int(el.get('DescriptorVersion'))))
+    for node in msg.iter(f'{{{PM_NS}}}MdState', f'{{{MSG_NS}}}MdState'):
+        if node.get('StateVersion') is not None:
+            view['state_version'] = int(node.get('StateVersion'))
+    for el in msg.iter(f'{{{PM_NS}}}State', f'{{{MSG_NS}}}State', f'{{{MSG_NS}}}ContextState'):
+        key = ('ctx', el.get('Handle')) if el.get('Handle') is not None else ('state', el.get('DescriptorHandle'))
+        view['states'].append((key, _int(el.get('DescriptorVersion')), _int(el.get('StateVersion'))))
+    return view
+
+
+def _counters(c):
+    d = dict(c[1])
+    return (_int(d.get('DescriptorVersion')), _int(d.get('StateVersion')))
+
+
+def check_response(ctx, hist, kind, handles, result, detail, mds_handles=None, single_mds=True, cfg=None):
+    """compare one response with the snapshot of the version it states (the library's reader AND an own reading of the bytes)."""
+    cfg = cfg or DEFAULT_CFG
     vg = result.mdib_version_group
     v = vg.mdib_version
     snap = hist.by_version.get(v)
@@ -51,74 +185,91 @@ def check_response(ctx, hist, kind, handles, result, detail, mds_handles, single
     if (vg.sequence_id, vg.instance_id) != (snap['version'][1], snap['version'][2]):
         ctx.witness(f'response.version_group.{kind}', 'SequenceId / InstanceId of the response differ from the MDIB', detail)
     bad = []
+    want_states, want_all_descr = expected_selection(snap, kind, handles, cfg)
+    got_states = None
+    got_d = None
     if kind == 'GetMdib':
         descrs, states = result.result
-        got_d = {d.Handle: canon_descriptor(d) for d in descrs}
-        got_s = {s.DescriptorHandle: canon(s) for s in states if not s.is_context_state}
-        got_c = {s.Handle: canon(s) for s in states if s.is_context_state}
-        for name, got, want in (('descr', got_d, snap['descr']), ('states', got_s, snap['states']), ('ctx', got_c, snap['ctx'])):
-            if set(got) != set(want):
-                bad.append(f'{name}: selection differs from the MDIB at version {v}: only in response {sorted(set(got) - set(want))[:3]}, '
-                           f'missing {sorted(set(want) - set(got))[:3]}')
-            for h in set(got) & set(want):
-                if not tolerant_equal(got[h], want[h]):
-                    bad.append(f'{name}[{h}] {first_difference(want[h], got[h])}')
+        got_d = [(d.Handle, canon_descriptor(d)) for d in descrs]
+        got_states = [((('ctx', s.Handle) if s.is_context_state else ('state', s.DescriptorHandle)), canon(s)) for s in states]
+        want_all_descr = True
     elif kind == 'GetMdDescription':
-        node = result.p_msg.msg_node.find('{http://standards.ieee.org/downloads/11073/11073-10207-2017/message}MdDescription')
+        node = result.p_msg.msg_node.find(f'{{{MSG_NS}}}MdDescription')
         descrs = result.msg_reader._read_md_description_node(node) if node is not None else []
-        got_d = {d.Handle: canon_descriptor(d) for d in descrs}
-        want = snap['descr']
-        expect_all = not handles or any(h in want for h in handles)
-        if expect_all and set(got_d) != set(want):
-            bad.append(f'descr: selection differs from the MDIB at version {v}: only in response {sorted(set(got_d) - set(want))[:3]}, '
-                       f'missing {sorted(set(want) - set(got_d))[:3]}')
-        if not expect_all and got_d:
-            bad.append(f'descr: none of the requested handles {handles} exists at version {v}, but the response contains {len(got_d)} descriptors')
-        for h in set(got_d) & set(want):
-            if not tolerant_equal(got_d[h], want[h]):
-                bad.append(f'descr[{h}] {first_difference(want[h], got_d[h])}')
-        for h in set(got_d) - set(want):
-            bad.append(f'descr[{h}] in response but not in the MDIB at version {v}')
+        got_d = [(d.Handle, canon_descriptor(d)) for d in descrs]
     else:
         states = result.result.MdState.State if kind == 'GetMdState' else result.result.ContextState
-        got = {}
-        for s in states:
-            key = ('ctx', s.Handle) if s.is_context_state else ('state', s.DescriptorHandle)
-            got[key] = canon(s)
-        want = {}
-        if kind == 'GetMdState':
-            if not handles:
-                want = {('state', h): c for h, c in snap['states'].items()}
-                want.update({('ctx', h): c for h, c in snap['ctx'].items()})
-            else:
-                for h in handles:
-                    if h in snap['ctx']:
-                        want[('ctx', h)] = snap['ctx'][h]
-                    else:
-                        if h in snap['states']:
-                            want[('state', h)] = snap['states'][h]
-                        for ch, c in snap['ctx'].items():
-                            if dict(c[1]).get('DescriptorHandle') == h:
-                                want[('ctx', ch)] = c
-        else:
-            if not handles:
-                want = {('ctx', h): c for h, c in snap['ctx'].items()}
-            else:
-                for h in handles:
-                    if h in snap['ctx']:
-                        want[('ctx', h)] = snap['ctx'][h]
-                    elif h in mds_handles and single_mds:
-                        want.update({('ctx', ch): c for ch, c in snap['ctx'].items()})
-                    else:
-                        for ch, c in snap['ctx'].items():
-                            if dict(c[1]).get('DescriptorHandle') == h:
-                                want[('ctx', ch)] = c
-        if set(got) != set(want):
-            bad.append(f'selection differs from the one at version {v}: only in response {sorted(set(got) - set(want))[:3]}, '
-                       f'missing {sorted(set(want) - set(got))[:3]}')
-        for k in set(got) & set(want):
-            if not tolerant_equal(got[k], want[k]):
-                bad.append(f'{k} {first_difference(want[k], got[k])}')
+        got_states = [((('ctx', s.Handle) if s.is_context_state else ('state', s.DescriptorHandle)), canon(s)) for s in states]
+    if got_d is not None:
+        want = snap['descr']
+        keys = {h for h, _ in got_d}
+        if want_all_descr and keys != set(want):
+            bad.append(f'descr: selection differs from the MDIB at version {v}: only in response {sorted(keys - set(want))[:3]}, '
+                       f'missing {sorted(set(want) - keys)[:3]}')
+        if not want_all_descr and got_d:
+            bad.append(f'descr: none of the requested handles {handles} exists at version {v}, but the response contains {len(got_d)} descriptors')
+        for h, c in got_d:  # every occurrence
+            if h not in want:
+                if not want_all_descr or kind == 'GetMdDescription':
+                    bad.append(f'descr[{h}] in response but not in the MDIB at version {v}')
+            elif not tolerant_equal(c, want[h]):
+                bad.append(f'descr[{h}] {first_difference(want[h], c)}')
+        if len(keys) != len(got_d):
+            ctx.count('response.duplicate_entities')
+    if got_states is not None:
+        keys = {k for k, _ in got_states}
+        if keys != set(want_states):
+            bad.append(f'selection differs from the one at version {v}: only in response {sorted(keys - set(want_states))[:3]}, '
+                       f'missing {sorted(set(want_states) - keys)[:3]}')
+        for k, c in got_states:  # every occurrence: a state that is contained twice must be right twice
+            if k in want_states and not tolerant_equal(c, want_states[k]):
+                bad.append(f'{k} {first_difference(want_states[k], c)}')
+        if len(keys) != len(got_states):
+            ctx.count('response.duplicate_entities')
+    # ---- the bytes, read without the library's message reader
+    raw = getattr(result.p_msg, 'raw_data', None)
+    if raw:
+        try:
+            view = wire_view(raw)
+        except Exception as ex:  # noqa: BLE001
+            view = None
+            ctx.count('response.wire_view_failed')
+            ctx.extra.setdefault('wire_view_errors', []).append(repr(ex)[:200])
+        if view is not None:
+            ctx.count('response.wire_checked')
+            if view['version'] != (v, vg.sequence_id, vg.instance_id):
+                bad.append(f'wire: version group of the message element {view["version"]} is not the one the reader reports {(v, vg.sequence_id, vg.instance_id)}')
+            if view['inner'] is not None:
+                ctx.count('response.inner_version_group')
+                if view['inner'] != view['version']:
+                    ctx.witness(f'snapshot.container_version.{kind}', 'msg:Mdib inside the answer states another version group than the answer itself',
+                                {**detail, 'answer': view['version'], 'mdib_element': view['inner']})
+            cv = snap.get('container_versions')
+            if cv is not None:
+                for name, got_v, want_v in (('MdDescription/@DescriptionVersion', view['description_version'], cv[0]),
+                                            ('MdState/@StateVersion', view['state_version'], cv[1])):
+                    if got_v is not None:
+                        ctx.count('response.container_version')
+                        if got_v != want_v:
+                            ctx.witness(f'snapshot.container_version.{kind}', f'{name} of the answer is not the one the MDIB had at the stated version',
+                                        {**detail, 'stated_version': v, 'got': got_v, 'want': want_v})
+            if got_states is not None:
+                wire_keys = {k for k, _, _ in view['states']}
+                if wire_keys != set(want_states):
+                    bad.append(f'wire: selection differs from the one at version {v}: only in response {sorted(wire_keys - set(want_states))[:3]}, '
+                               f'missing {sorted(set(want_states) - wire_keys)[:3]}')
+                for k, dv, sv in view['states']:
+                    if k in want_states and (dv, sv) != _counters(want_states[k]):
+                        bad.append(f'wire: {k} DescriptorVersion/StateVersion {(dv, sv)} != {_counters(want_states[k])} at version {v}')
+            if got_d is not None:
+                parsed = {h for h, _ in got_d}
+                for h, dv in view['descr']:
+                    if h in snap['descr'] and h in parsed and dv != _counters(snap['descr'][h])[0]:
+                        bad.append(f'wire: descr[{h}] DescriptorVersion {dv} != {_counters(snap["descr"][h])[0]} at version {v}')
+                if want_all_descr:
+                    missing = set(snap['descr']) - {h for h, _ in view['descr']}
+                    if missing:
+                        bad.append(f'wire: descriptors missing {sorted(missing)[:3]}')
     if bad:
         ctx.witness(f'snapshot.inconsistent.{kind}', f'{kind} response is not the MDIB content of the MdibVersion it states',
                     {**detail, 'stated_version': v, 'problems': bad[:3]})
@@ -194,7 +345,15 @@ def w_explore(ctx: core.Ctx, arg):
         check_response(ctx, hist, kind, handles, res, {'request': [kind, handles], 'schedule': 'none', 'mdib_file': mdib_file}, mds_handles)
         ctx.extra.setdefault('scheduling_points', {})[f'{kind}:{"all" if not handles else "handles"}'] = [list(p) for p in points]
         ctx.count('explore.scheduling_points', len(points))
+        # bounded: a handler that leaves the MDIB lock early exposes every table lookup as a point (hundreds for GetMdib) - first, last and
+        # evenly spread ones are enough to see a torn answer, the complete product would run for hours
+        chosen = list(range(len(points)))
+        if len(chosen) > MAX_POINTS_PER_REQUEST:
+            chosen = sorted({round(k * (len(points) - 1) / (MAX_POINTS_PER_REQUEST - 1)) for k in range(MAX_POINTS_PER_REQUEST)})
+            ctx.count('explore.points_capped', len(points) - len(chosen))
         for pi, point in enumerate(points):
+            if pi not in chosen:
+                continue
             n0 = next(counter)
             inj_kinds = list(_injections(cat, handles, n0))
             combos = [(k,) for k in inj_kinds]
@@ -254,11 +413,16 @@ def w_explore(ctx: core.Ctx, arg):
 def w_stress(ctx: core.Ctx, arg):
     rng = ctx.rng('stress', arg['i'])
     mdib_file = MDIB_FILES[arg['i'] % len(MDIB_FILES)]
-    world = World(mdib_file, role_provider=False)
+    real = arg.get('transport') == 'real'
+    pre = 'stress_real' if real else 'stress'
+    world, add, cfg = _mk_world({**arg, 'mdib_file': mdib_file})
     mdib = world.mdib
-    readers = [world.add_consumer(with_mdib=False)[0] for _ in range(arg['readers'])]
+    readers = [add() for _ in range(arg['readers'])]
     hist = LiveHistory(mdib)
     reqs, cat = _requests(mdib)
+    # + an MDS handle of every MDS, unknown / duplicate handles (the state of a deleted metric simply is not selected)
+    reqs += [('GetContextStates', [h]) for h in cat['mds'][:2]] + [('GetMdState', cat['metric'][:1] * 2 + cat['context'][:1] + [UNKNOWN]),
+                                                                    ('GetMdDescription', [UNKNOWN]), ('GetContextStates', [UNKNOWN] + cat['context'][:2])]
     mds_handles = set(cat['mds'])
     stop = threading.Event()
     old_interval = sys.getswitchinterval()
@@ -318,39 +482,598 @@ def w_stress(ctx: core.Ctx, arg):
     versions = set()
     for kind, handles, res in responses:
         versions.add(res.mdib_version_group.mdib_version)
-        check_response(ctx, hist, kind, handles, res, {'request': [kind, handles], 'schedule': 'thread stress', 'mdib_file': mdib_file}, mds_handles)
-    ctx.count('stress.responses', len(responses))
-    ctx.count('stress.commits', len(hist.by_version))
-    ctx.count('stress.distinct_versions_in_responses', len(versions))
-    ctx.case(('stress', arg['i'], len(versions) > 3))
+        check_response(ctx, hist, kind, handles, res, {'request': [kind, handles], 'schedule': 'thread stress', 'mdib_file': mdib_file,
+                                                        'transport': 'real' if real else 'loop'}, mds_handles, cfg=cfg)
+    ctx.count(f'{pre}.responses', len(responses))
+    ctx.count(f'{pre}.commits', len(hist.by_version))
+    ctx.count(f'{pre}.distinct_versions_in_responses', len(versions))
+    ctx.case((pre, arg['i'], len(versions) > 3))
     if errors:
         ctx.extra.setdefault('stress_errors', [])
         ctx.extra['stress_errors'] += errors[:5]
-        ctx.count('stress.errors', len(errors))
+        ctx.count(f'{pre}.errors', len(errors))
     world.stop()
+
+
+# ------------------------------------------------------------------------------------------------
+# (3) gate scheduler: several request threads parked at their scheduling points, transactions between any two steps
+# (4) writer-side points: a request arrives while a transaction is in the middle of its commit
+# ------------------------------------------------------------------------------------------------
+STRESS_KINDS = ('metric', 'alert', 'component', 'context', 'descr_update', 'descr_create', 'descr_delete', 'operational', 'rt', 'descr_with_state',
+                'descr_parent_child', 'descr_multi')
+UNKNOWN = 'c07_no_such_handle'
+
+
+def _mk_world(arg):
+    cfg = {'ctx_in_getmdib': arg.get('ctx_in_getmdib', True)}
+    if arg.get('transport') == 'real':
+        import uuid
+
+        from sdc11073.consumer.consumerimpl import SdcConsumer
+        from sdc11073.definitions_sdc import SdcV1Definitions
+
+        from ..realworld import RealWorld
+        world = RealWorld(arg['mdib_file'], async_mgr=arg.get('async_mgr', False), contextstates_in_getmdib=cfg['ctx_in_getmdib'],
+                          chunk_size=arg.get('chunk_size', 0))
+
+        def add():
+            # the default socket timeout (5 s) is wall-clock: a parked request on a loaded machine must not run into it
+            consumer = SdcConsumer(world.provider_address, SdcV1Definitions, None, socket_timeout=900, request_chunk_size=arg.get('chunk_size', 0),
+                                   epr=uuid.UUID(int=0x7000 + len(world.consumers)))
+            consumer.start_all()
+            world.consumers.append(consumer)
+            return consumer
+    else:
+        world = World(arg['mdib_file'], role_provider=False, async_mgr=arg.get('async_mgr', False), contextstates_in_getmdib=cfg['ctx_in_getmdib'])
+
+        def add():
+            return world.add_consumer(with_mdib=False)[0]
+    return world, add, cfg
+
+
+class _Env:
+    """names of one run: what the requests ask for and what the transactions touch."""
+
+    def __init__(self, cat, n, init_ctx):
+        self.cat = cat
+        self.n = n
+        self.metric = cat['metric'][0]
+        self.metric2 = cat['metric'][1 % len(cat['metric'])]
+        self.other_metric = cat['metric'][-1]
+        self.ctx_descr = cat['context'][0] if cat['context'] else None
+        self.ctx_descr2 = cat['context'][1] if len(cat['context']) > 1 else self.ctx_descr
+        self.ctx_state = init_ctx[0] if init_ctx else None
+        self.future_descr = f'fut_{n}'
+        self.future_ctx = f'futctx_{n}'
+        self.victim = f'vic_{n}'
+        self.victim_ctx = f'vicctx_{n}'
+        self.created_descr = []
+        self.created_ctx = []
+        self.j = 0
+
+    def resolve(self, handles):
+        if handles is None:
+            return None
+        table = {'@metric': self.metric, '@metric2': self.metric2, '@ctx_descr': self.ctx_descr, '@ctx_descr2': self.ctx_descr2,
+                 '@ctx_state': self.ctx_state, '@fut': self.future_descr, '@futctx': self.future_ctx, '@vic': self.victim,
+                 '@vicctx': self.victim_ctx, '@unknown': UNKNOWN}
+        out = []
+        for h in handles:
+            if h.startswith('@mds'):
+                out.append(self.cat['mds'][int(h[4:] or 0) % len(self.cat['mds'])])
+            else:
+                out.append(table.get(h, h))
+        return [h for h in out if h is not None]
+
+
+# request templates: (kind, handles with placeholders)
+REQUEST_TEMPLATES = [
+    ('GetMdib', None), ('GetMdDescription', None), ('GetMdState', None), ('GetContextStates', None),
+    ('GetMdDescription', ['@metric']), ('GetMdState', ['@metric', '@metric2']), ('GetMdState', ['@ctx_descr']), ('GetContextStates', ['@ctx_descr']),
+    ('GetContextStates', ['@mds0']), ('GetContextStates', ['@mds1']),
+    # a context STATE handle
+    ('GetMdState', ['@ctx_state']), ('GetContextStates', ['@ctx_state']),
+    # mixed / duplicate / unknown handles
+    ('GetMdState', ['@metric', '@metric', '@ctx_descr', '@ctx_state', '@unknown']), ('GetContextStates', ['@ctx_descr', '@ctx_state', '@unknown', '@ctx_descr2']),
+    ('GetMdDescription', ['@unknown']), ('GetMdDescription', ['@unknown', '@metric']), ('GetMdState', ['@unknown']), ('GetContextStates', ['@unknown']),
+    # handles that are created / deleted while the request is in progress
+    ('GetMdDescription', ['@fut']), ('GetMdState', ['@fut']), ('GetMdState', ['@fut', '@metric']), ('GetMdState', ['@futctx']), ('GetContextStates', ['@futctx']),
+    ('GetContextStates', ['@futctx', '@ctx_state']),
+    ('GetMdDescription', ['@vic']), ('GetMdState', ['@vic']), ('GetMdState', ['@vicctx']), ('GetContextStates', ['@vicctx']), ('GetMdState', ['@vic', '@vicctx', '@fut']),
+]
+N_BASE_TEMPLATES = 10
+TX_KINDS = ['req_state', 'other_state', 'descr_update', 'descr_with_state', 'descr_create', 'descr_delete_victim', 'ctx_new', 'ctx_update', 'ctx_descr_update',
+            'ctx_delete_victim', 'alert', 'component', 'gen']
+
+
+def _relevant_tx(handles):
+    """transaction kinds that change what this request selects / contains."""
+    hs = handles or []
+    out = []
+    if any(h in ('@fut',) for h in hs):
+        out.append('descr_create')
+    if any(h == '@futctx' for h in hs):
+        out.append('ctx_new')
+    if any(h == '@vic' for h in hs):
+        out.append('descr_delete_victim')
+    if any(h == '@vicctx' for h in hs):
+        out.append('ctx_delete_victim')
+    if not out:
+        out = ['req_state', 'descr_update', 'ctx_new', 'ctx_update', 'ctx_descr_update', 'descr_create', 'descr_with_state']
+    return out
+
+
+def _mk_op(kind, env: _Env, rng, mdib, memo):
+    env.j += 1
+    seed = rng.randrange(1 << 30)
+    cat = env.cat
+    if kind == 'req_state':
+        return {'op': 'metric', 'handles': [env.metric], 'iface': 'classic', 'seed': seed}
+    if kind == 'other_state':
+        return {'op': 'metric', 'handles': [env.other_metric], 'iface': 'entity', 'seed': seed}
+    if kind == 'descr_update':
+        return {'op': 'descr_update', 'handles': [env.metric], 'iface': rng.choice(['classic', 'entity']), 'seed': seed}
+    if kind == 'descr_with_state':
+        return {'op': 'descr_with_state', 'handle': env.metric, 'order': rng.choice(['descr_first', 'state_first']), 'iface': 'classic', 'seed': seed}
+    if kind == 'descr_create':
+        h = env.future_descr if env.future_descr not in env.created_descr else f'{env.future_descr}_{env.j}'
+        env.created_descr.append(h)
+        return {'op': 'descr_create', 'parent': cat['channel'][0], 'handle': h, 'with_state': True, 'iface': rng.choice(['classic', 'entity']), 'seed': seed}
+    if kind == 'descr_delete_victim':
+        if env.victim not in env.created_descr:
+            return None
+        env.created_descr.remove(env.victim)
+        return {'op': 'descr_delete', 'handle': env.victim, 'iface': rng.choice(['classic', 'entity']), 'seed': seed}
+    if kind == 'ctx_new' and env.ctx_descr:
+        h = env.future_ctx if env.future_ctx not in env.created_ctx else f'{env.future_ctx}_{env.j}'
+        env.created_ctx.append(h)
+        return {'op': 'context', 'sub': rng.choice(['new', 'new_assoc']), 'descr': env.ctx_descr, 'new_handle': h, 'iface': rng.choice(['classic', 'entity']),
+                'seed': seed}
+    if kind == 'ctx_update' and env.ctx_state:
+        return {'op': 'context', 'sub': 'update', 'descr': env.ctx_descr, 'handles': [env.ctx_state], 'iface': rng.choice(['classic', 'entity']), 'seed': seed}
+    if kind == 'ctx_descr_update' and env.ctx_descr:
+        return {'op': 'descr_update', 'handles': [env.ctx_descr], 'iface': 'classic', 'seed': seed}
+    if kind == 'ctx_delete_victim' and env.ctx_descr:
+        if env.victim_ctx not in env.created_ctx:
+            return None
+        env.created_ctx.remove(env.victim_ctx)
+        return {'op': 'ctx_delete', 'sub': 'delete', 'descr': env.ctx_descr, 'victims': [env.victim_ctx], 'iface': 'entity', 'seed': seed}
+    if kind in ('alert', 'component') and cat[kind]:
+        return {'op': kind, 'handles': [rng.choice(cat[kind])], 'iface': rng.choice(['classic', 'entity']), 'seed': seed}
+    if kind == 'gen':
+        weights = {k: v for k, v in mdibops.DEFAULT_WEIGHTS.items() if k in STRESS_KINDS}
+        with mdib.mdib_lock:
+            op = mdibops.gen_op(rng, mdib, memo, weights)
+        if op['op'] == 'descr_create':
+            op['handle'] = f'g{env.n}_{env.j}_{op["handle"]}'
+        if op['op'] == 'context':
+            op['new_handle'] = f'g{env.n}_{env.j}_{op["new_handle"]}'
+        return op
+    return None
+
+
+class _SchedRig:
+    """one world with gate locks, consumers, history; runs schedules."""
+
+    def __init__(self, ctx, arg):
+        self.ctx = ctx
+        self.arg = arg
+        self.world, add, self.cfg = _mk_world(arg)
+        self.consumers = [add() for _ in range(arg.get('consumers', 3))]
+        self.mdib = self.world.mdib
+        self.init_ctx = []
+        for h in mdibops.catalog(self.mdib)['context'][:2]:
+            ap = mdibops.apply_op(self.mdib, {'op': 'context', 'sub': 'new_assoc', 'descr': h, 'new_handle': f'init_{h}', 'seed': 3, 'iface': 'classic'})
+            if ap.outcome == 'ok':
+                self.init_ctx.append(f'init_{h}')
+        self.cat = mdibops.catalog(self.mdib)
+        self.sched = Sched(self.mdib)
+        self.hist = LiveHistory(self.mdib)
+        self.hist.sched = self.sched
+        self.memo = {}
+        self.n = 0
+        self.garbage_ctx = []
+        self.dirty = False
+        self.transport = arg.get('transport', 'loop')
+
+    def applicable(self, tpl):
+        kind, handles = tpl
+        for h in handles or []:
+            if h.startswith('@ctx') or h in ('@futctx', '@vicctx'):
+                if not self.cat['context']:
+                    return False
+            if h == '@mds1' and len(self.cat['mds']) < 2:
+                return False
+        return True
+
+    def tx(self, kind, env, rng, where):
+        op = _mk_op(kind, env, rng, self.mdib, self.memo)
+        if op is None:
+            self.ctx.count(f'{where}.tx_skipped.{kind}')
+            return None
+        ap = mdibops.apply_op(self.mdib, op, self.memo if kind == 'gen' else None)
+        self.ctx.count(f'{where}.tx.{kind}')
+        if ap.outcome != 'ok':
+            self.ctx.count(f'{where}.tx_failed.{kind}.{ap.outcome}')
+        if kind == 'gen':
+            self.dirty = True
+            if ap.outcome == 'ok':
+                env.created_descr += [h for h in ap.created if h not in env.created_descr]
+        return ap
+
+    def setup(self, env, templates, tokens):
+        used = {h for _, hs in templates for h in (hs or [])} | {t[1] for t in tokens if t[0] == 'T'}
+        steps = []
+        if '@vic' in used or 'descr_delete_victim' in used:
+            ap = mdibops.apply_op(self.mdib, {'op': 'descr_create', 'parent': self.cat['channel'][0], 'handle': env.victim, 'with_state': True,
+                                              'iface': 'classic', 'seed': env.n})
+            if ap.outcome == 'ok':
+                env.created_descr.append(env.victim)
+        if env.ctx_descr and ('@vicctx' in used or 'ctx_delete_victim' in used):
+            ap = mdibops.apply_op(self.mdib, {'op': 'context', 'sub': 'new', 'descr': env.ctx_descr, 'new_handle': env.victim_ctx, 'iface': 'classic',
+                                              'seed': env.n})
+            if ap.outcome == 'ok':
+                env.created_ctx.append(env.victim_ctx)
+        return steps
+
+    def cleanup(self, env):
+        """keep the MDIB small: what a run created is removed again (one descriptor transaction; context states in bulk from time to time)."""
+        have = [h for h in dict.fromkeys(env.created_descr) if self.mdib.descriptions.handle.get_one(h, allow_none=True) is not None]
+        if have:
+            mdibops.apply_op(self.mdib, {'op': 'descr_multi', 'sub': 'cleanup', 'steps': [['delete', h] for h in have], 'seed': 0, 'iface': 'classic'})
+        self.garbage_ctx += env.created_ctx
+        if len(self.garbage_ctx) >= 12 and env.ctx_descr:
+            by_descr = {}
+            for h in self.garbage_ctx:
+                st = self.mdib.context_states.handle.get_one(h, allow_none=True)
+                if st is not None:
+                    by_descr.setdefault(st.DescriptorHandle, []).append(h)
+            for d, victims in by_descr.items():
+                mdibops.apply_op(self.mdib, {'op': 'ctx_delete', 'sub': 'delete', 'descr': d, 'victims': victims, 'iface': 'entity', 'seed': 0})
+            self.garbage_ctx = []
+        # the history only needs the versions a response of this run can state
+        if len(self.hist.by_version) > 64:
+            for v in sorted(self.hist.by_version)[:-8]:
+                del self.hist.by_version[v]
+
+    def refresh(self):
+        """a random transaction may have removed what the templates name: look again."""
+        self.cat = mdibops.catalog(self.mdib)
+        self.init_ctx = []
+        for h in self.cat['context'][:2]:
+            if self.mdib.context_states.handle.get_one(f'init_{h}', allow_none=True) is None:
+                mdibops.apply_op(self.mdib, {'op': 'context', 'sub': 'new_assoc', 'descr': h, 'new_handle': f'init_{h}', 'seed': 3, 'iface': 'classic'})
+            if self.mdib.context_states.handle.get_one(f'init_{h}', allow_none=True) is not None:
+                self.init_ctx.append(f'init_{h}')
+        self.dirty = False
+
+    def run(self, templates, tokens, rng, where, shape):
+        """templates: one request per reader; tokens: ('R', i) one segment of reader i | ('T', kind) a complete transaction."""
+        ctx = self.ctx
+        if self.dirty:
+            self.refresh()
+        self.n += 1
+        env = _Env(self.cat, f'{self.arg["i"]}_{self.n}', self.init_ctx)
+        self.setup(env, templates, tokens)
+        reqs = [(kind, env.resolve(handles)) for kind, handles in templates]
+        sched = self.sched
+        actors = []
+        for i, (kind, handles) in enumerate(reqs):
+            actors.append(Actor(f'r{i}', 'reader', lambda c=self.consumers[i], k=kind, h=handles: _issue(c, k, h)))
+        sched.begin()
+        done_tokens = []
+        try:
+            for tok in tokens:
+                if tok[0] == 'T':
+                    in_flight = sum(1 for a in actors if a.state == 'parked')
+                    self.tx(tok[1], env, rng, where)
+                    if in_flight:
+                        ctx.count(f'{where}.tx_while_requests_in_flight')
+                        if in_flight > 1:
+                            ctx.count(f'{where}.tx_while_2plus_requests_in_flight')
+                else:
+                    sched.step(actors[tok[1]])
+                done_tokens.append(tok)
+                if sched.stuck:
+                    break
+            sched.drain(actors)
+        finally:
+            sched.end()
+        if sched.stuck:
+            ctx.not_decided(f'{where}: scheduler watchdog: {sched.stuck[:2]}')
+            sched.stuck.clear()
+            return False
+        ctx.count(f'{where}.runs')
+        ctx.count(f'{where}.runs.readers_{len(actors)}')
+        ntx = sum(1 for t in tokens if t[0] == 'T')
+        ctx.count(f'{where}.runs.tx_{min(ntx, 4)}')
+        ctx.case((where, self.arg['mdib_file'], self.transport, shape))
+        for i, a in enumerate(actors):
+            kind, handles = reqs[i]
+            detail = {'request': [kind, handles], 'template': list(templates[i]), 'schedule': [list(t) for t in tokens], 'reader': i,
+                      'points': [list(p) for p in a.points], 'mdib_file': self.arg['mdib_file'], 'transport': self.transport}
+            ctx.count(f'{where}.reader_points', len(a.points))
+            if a.exception is not None:
+                ctx.witness(f'request.failed.{kind}', 'a Get request failed while transactions / other requests were interleaved',
+                            {**detail, 'ex': repr(a.exception)[:300]})
+                continue
+            check_response(ctx, self.hist, kind, handles, a.result, detail, cfg=self.cfg)
+        if self.hist.problems:
+            self.hist.problems.clear()
+        self.cleanup(env)
+        return True
+
+    def stop(self):
+        self.world.stop()
+
+
+def _interleavings(counts):
+    """all merges of the readers' step sequences: counts = [3, 3] -> 20 sequences of reader indices."""
+    out = []
+
+    def rec(rest, acc):
+        if not any(rest):
+            out.append(tuple(acc))
+            return
+        for i, c in enumerate(rest):
+            if c:
+                rest[i] -= 1
+                acc.append(i)
+                rec(rest, acc)
+                acc.pop()
+                rest[i] += 1
+    rec(list(counts), [])
+    return out
+
+
+def _directed_schedules(rig, rng, thorough):
+    """(templates, tokens, shape) - always executed."""
+    T = [t for t in REQUEST_TEMPLATES if rig.applicable(t)]
+    out = []
+    # a) every template, one reader, one relevant transaction before the critical section and one after it
+    for ti, tpl in enumerate(T):
+        rel = _relevant_tx(tpl[1])
+        for kind in (rel if (thorough or ti >= N_BASE_TEMPLATES) else rel[:2]):
+            for slot in (1, 2):
+                toks = [('R', 0)] * 3
+                toks.insert(slot, ('T', kind))
+                out.append(([tpl], toks, ('single', ti, kind, slot)))
+    # b) k = 3, 4 transactions spread over DIFFERENT points of one request
+    for ti, tpl in enumerate(T):
+        rel = _relevant_tx(tpl[1])
+        kinds = [rel[k % len(rel)] for k in range(2)] + ['other_state', 'gen']
+        out.append(([tpl], [('T', kinds[2]), ('R', 0), ('T', kinds[0]), ('R', 0), ('T', kinds[1]), ('T', kinds[3]), ('R', 0)], ('spread4', ti)))
+        out.append(([tpl], [('R', 0), ('T', kinds[0]), ('T', kinds[3]), ('T', kinds[1]), ('R', 0), ('R', 0)], ('three_before', ti)))
+    # c) two overlapping requests (same and different kinds) around a transaction: the 'version kept in shared handler state' class
+    pairs = [(a, a) for a in T[:8]] + [(T[i], T[(i + 3) % len(T)]) for i in range(len(T))]
+    for pi, (a, b) in enumerate(pairs):
+        rel = _relevant_tx(a[1])
+        k = rel[pi % len(rel)]
+        out.append(([a, b], [('R', 0), ('R', 0), ('T', k), ('R', 1), ('R', 1), ('R', 1), ('R', 0)], ('pair_a', pi, k)))
+        out.append(([a, b], [('R', 0), ('R', 1), ('R', 0), ('R', 1), ('T', k), ('R', 1), ('R', 0)], ('pair_b', pi, k)))
+        if thorough:
+            out.append(([a, b], [('R', 0), ('R', 1), ('T', k), ('R', 0), ('R', 1), ('T', 'gen'), ('R', 0), ('R', 1)], ('pair_c', pi, k)))
+    # d) three overlapping requests
+    for ti in range(0, len(T), 3 if not thorough else 1):
+        trio = [T[ti], T[(ti + 5) % len(T)], T[(ti + 11) % len(T)]]
+        k = _relevant_tx(trio[0][1])[0]
+        out.append((trio, [('R', 0), ('R', 1), ('R', 2), ('R', 0), ('R', 1), ('T', k), ('R', 2), ('T', 'req_state'), ('R', 0), ('R', 1), ('R', 2)],
+                    ('trio', ti, k)))
+    return out
+
+
+def _enumerated_pair_schedules(rig, tpl_a, tpl_b, kind):
+    """2 requests x 1 transaction: every interleaving of the six reader segments x every slot of the transaction (140)."""
+    out = []
+    for il in _interleavings([3, 3]):
+        for slot in range(1, 6):  # slot 0 and 6: no request in flight = sequential
+            toks = [('R', i) for i in il]
+            toks.insert(slot, ('T', kind))
+            out.append(([tpl_a, tpl_b], toks, ('enum', REQUEST_TEMPLATES.index(tpl_a), REQUEST_TEMPLATES.index(tpl_b), kind, il, slot)))
+    return out
+
+
+def _random_schedule(rig, rng):
+    T = [t for t in REQUEST_TEMPLATES if rig.applicable(t)]
+    nreaders = rng.choice([1, 1, 2, 2, 2, 3])
+    templates = [rng.choice(T) for _ in range(nreaders)]
+    il = [i for i in range(nreaders) for _ in range(3)]
+    rng.shuffle(il)
+    toks = [('R', i) for i in il]
+    ntx = rng.choice([1, 2, 2, 3, 3, 4])
+    rel = [k for tpl in templates for k in _relevant_tx(tpl[1])]
+    for _ in range(ntx):
+        kind = rng.choice(rel) if rng.random() < 0.6 else rng.choice(TX_KINDS)
+        toks.insert(rng.randrange(1, len(toks)), ('T', kind))
+    shape = ('random', tuple(REQUEST_TEMPLATES.index(t) for t in templates), tuple(t[1] for t in toks))
+    return templates, toks, shape
+
+
+def w_sched(ctx: core.Ctx, arg):
+    """share `split` of `nsplit` of the directed schedules + `random` seeded random ones (+ an enumerated block)."""
+    rng = ctx.rng('sched', arg['i'])
+    rig = _SchedRig(ctx, arg)
+    where = 'sched' if arg.get('transport', 'loop') == 'loop' else 'sched_real'
+    try:
+        directed = _directed_schedules(rig, rng, arg.get('thorough', False))
+        todo = [d for k, d in enumerate(directed) if k % arg['nsplit'] == arg['split']]
+        for e in arg.get('enumerate', []):
+            block = _enumerated_pair_schedules(rig, REQUEST_TEMPLATES[e[0]], REQUEST_TEMPLATES[e[1]], e[2])
+            todo += [b for k, b in enumerate(block) if k % e[4] == e[3]]
+        for _ in range(arg.get('random', 0)):
+            todo.append(_random_schedule(rig, rng))
+        for templates, tokens, shape in todo:
+            if not all(rig.applicable(t) for t in templates):
+                continue
+            if not rig.run(templates, tokens, rng, where, shape):
+                break
+        if arg['split'] == 0:
+            ctx.sample({'kind': 'gate scheduler', 'mdib_file': arg['mdib_file'], 'transport': rig.transport, 'schedules': len(todo),
+                        'first': [[list(t) for t in todo[0][0]], [list(t) for t in todo[0][1]]] if todo else None})
+    finally:
+        rig.stop()
+
+
+def w_midcommit(ctx: core.Ctx, arg):
+    """a request arrives while a transaction is parked at a point INSIDE its commit (it holds the MDIB lock): the reader has to wait (or,
+    if it does not, must still answer with the content of a committed version)."""
+    rng = ctx.rng('midcommit', arg['i'])
+    rig = _SchedRig(ctx, arg)
+    where = 'midcommit' if arg.get('transport', 'loop') == 'loop' else 'midcommit_real'
+    sched = rig.sched
+    try:
+        T = [t for t in REQUEST_TEMPLATES if rig.applicable(t)]
+        combos = []
+        for ti, tpl in enumerate(T):
+            for kind in _relevant_tx(tpl[1])[:arg.get('tx_per_template', 2)]:
+                combos.append((tpl, kind))
+        combos = [c for k, c in enumerate(combos) if k % arg['nsplit'] == arg['split']]
+        for tpl, kind in combos:
+            # dry run: how many points does the commit of this transaction expose?
+            npoints = None
+            for pi in [None] + list(range(arg.get('points_cap', 6))):
+                rig.n += 1
+                env = _Env(rig.cat, f'{arg["i"]}_{rig.n}', rig.init_ctx)
+                toks = [('T', kind)]
+                rig.setup(env, [tpl], toks)
+                op = _mk_op(kind, env, rng, rig.mdib, rig.memo)
+                if op is None:
+                    break
+                rkind, handles = tpl[0], env.resolve(tpl[1])
+                writer = Actor('w', 'writer', lambda o=op: mdibops.apply_op(rig.mdib, o, None))
+                reader = Actor('r', 'reader', lambda k=rkind, h=handles: _issue(rig.consumers[0], k, h))
+                actors = [writer, reader]
+                sched.begin()
+                try:
+                    if pi is None:
+                        sched.drain([writer])
+                        npoints = len(writer.points)
+                        ctx.count(f'{where}.writer_points', npoints)
+                    else:
+                        # evenly spread over the commit, first and last point always
+                        cap = arg.get('points_cap', 6)
+                        target = pi if npoints <= cap else round(pi * (npoints - 1) / (cap - 1))
+                        if target >= npoints:
+                            sched.end()
+                            rig.cleanup(env)
+                            break
+                        for _ in range(target + 1):
+                            sched.step(writer)
+                        holds = writer.state == 'parked'
+                        steps = 0
+                        while reader.state not in ('blocked', 'done') and steps < 12:
+                            sched.step(reader)
+                            steps += 1
+                        if holds:
+                            ctx.count(f'{where}.reader_blocked' if reader.state == 'blocked' else f'{where}.reader_not_blocked')
+                        sched.drain(actors)
+                finally:
+                    sched.end()
+                if sched.stuck:
+                    ctx.not_decided(f'{where}: scheduler watchdog: {sched.stuck[:2]}')
+                    sched.stuck.clear()
+                    return
+                if pi is not None:
+                    ctx.count(f'{where}.runs')
+                    ctx.case((where, arg['mdib_file'], REQUEST_TEMPLATES.index(tpl), kind, pi))
+                    detail = {'request': [rkind, handles], 'template': list(tpl), 'transaction': kind, 'writer_point': [target, list(writer.points[target]) if target < len(writer.points) else None],
+                              'writer_points': npoints, 'reader_was_blocked': reader.was_blocked, 'mdib_file': arg['mdib_file'], 'transport': rig.transport}
+                    if reader.exception is not None:
+                        ctx.witness(f'request.failed.{rkind}', 'a Get request failed while a transaction was committing', {**detail, 'ex': repr(reader.exception)[:300]})
+                    else:
+                        check_response(ctx, rig.hist, rkind, handles, reader.result, detail, cfg=rig.cfg)
+                    if writer.exception is not None or (writer.result is not None and writer.result.outcome != 'ok'):
+                        ctx.count(f'{where}.writer_failed')
+                rig.cleanup(env)
+        if rig.hist.problems:
+            rig.hist.problems.clear()
+    finally:
+        rig.stop()
 
 
 def run(ctx: core.Ctx):
     ctx.rule = ('explorer: request kind x scheduling point x injected transaction combination (k=1 always, k=2 pairs in thorough and for one MDIB in '
-                'quick), enumerated completely; distinct = (mdib, request, point index, combination).  stress: threads, every response checked')
+                'quick), enumerated completely (at most 8 points per request); distinct = (mdib, request, point index, combination).  '
+                'gate scheduler: 1-3 request threads (29 request templates incl. handles that are created / deleted during the request) parked at '
+                'their points, 1-4 transactions between any two steps: directed list + seeded random (+ complete 2 requests x 1 transaction blocks in '
+                'thorough); distinct = (mdib, transport, schedule shape).  mid-commit: request x transaction x point inside the commit.  '
+                'stress: threads (loop-back and real sockets), every response checked')
     q = ctx.quick
     jobs = []
     files = MDIB_FILES[:2] if q else MDIB_FILES
     for fi, f in enumerate(files):
-        for split in range(4):
-            jobs.append(['w_explore', {'i': fi * 4 + split, 'mdib_file': f, 'split': split, 'nsplit': 4, 'pairs': (fi == 0) or not q, 'async_mgr': fi % 2 == 1}])
+        nsplit = 6 if (fi == 0 or not q) else 4  # the jobs with pairs are the longest of the tier: split finer (critical path of the fan-out)
+        for split in range(nsplit):
+            jobs.append(['w_explore', {'i': fi * 8 + split, 'mdib_file': f, 'split': split, 'nsplit': nsplit, 'pairs': (fi == 0) or not q,
+                                       'async_mgr': fi % 2 == 1}])
     for k in range(4 if q else 16):
         jobs.append(['w_stress', {'i': k, 'writers': 3, 'readers': 3, 'seconds': 6 if q else 120, 'max_ops': 100000,
-                                  'max_requests': 150 if q else 3000}])
+                                  'max_requests': 150 if q else 1000}])  # (3000 requests per reader: the per-commit snapshots of one job need > 10 GB)
+    if q:
+        two = 'mdib_two_mds.xml'
+        one = MDIB_FILES[0]
+        jobs += [['w_sched', {'i': 100, 'mdib_file': one, 'split': 0, 'nsplit': 2, 'random': 15}],
+                 ['w_sched', {'i': 101, 'mdib_file': one, 'split': 1, 'nsplit': 2, 'random': 15, 'async_mgr': True}],
+                 ['w_sched', {'i': 102, 'mdib_file': two, 'split': 0, 'nsplit': 2, 'random': 15}],
+                 ['w_sched', {'i': 103, 'mdib_file': two, 'split': 1, 'nsplit': 2, 'random': 15, 'ctx_in_getmdib': False}],
+                 ['w_sched', {'i': 104, 'mdib_file': one, 'split': 0, 'nsplit': 3, 'random': 10, 'transport': 'real'}],
+                 ['w_midcommit', {'i': 110, 'mdib_file': one, 'split': 0, 'nsplit': 1, 'tx_per_template': 1, 'points_cap': 5}],
+                 ['w_midcommit', {'i': 111, 'mdib_file': two, 'split': 0, 'nsplit': 1, 'tx_per_template': 1, 'points_cap': 3, 'transport': 'real',
+                                  'async_mgr': True}],
+                 ['w_stress', {'i': 120, 'writers': 2, 'readers': 3, 'seconds': 6, 'max_ops': 100000, 'max_requests': 60, 'transport': 'real'}]]
+    else:
+        n = 200
+        for fi, f in enumerate(MDIB_FILES):
+            for split in range(4):
+                arg = {'i': n, 'mdib_file': f, 'split': split, 'nsplit': 4, 'random': 120, 'thorough': True, 'async_mgr': (fi + split) % 2 == 1,
+                       'ctx_in_getmdib': not (split == 3)}
+                # complete blocks: 2 requests x 1 transaction, every interleaving x every slot
+                blocks = [[5, 5, 'req_state'], [7, 11, 'ctx_update'], [3, 22, 'ctx_new'], [19, 4, 'descr_create'], [0, 2, 'descr_with_state'],
+                          [25, 24, 'descr_delete_victim'], [27, 26, 'ctx_delete_victim'], [1, 18, 'descr_create']]
+                arg['enumerate'] = [blocks[(fi * 2) % len(blocks)] + [split, 4], blocks[(fi * 2 + 1) % len(blocks)] + [split, 4]]
+                jobs.append(['w_sched', arg])
+                n += 1
+            for split in range(2):
+                jobs.append(['w_midcommit', {'i': n, 'mdib_file': f, 'split': split, 'nsplit': 2, 'tx_per_template': 3, 'points_cap': 40,
+                                             'async_mgr': split == 1}])
+                n += 1
+        for fi, f in enumerate(MDIB_FILES[:3]):
+            jobs.append(['w_sched', {'i': n, 'mdib_file': f, 'split': fi, 'nsplit': 3, 'random': 150, 'thorough': True, 'transport': 'real',
+                                     'async_mgr': fi == 1, 'chunk_size': 512 if fi == 2 else 0}])
+            jobs.append(['w_midcommit', {'i': n + 1, 'mdib_file': f, 'split': 0, 'nsplit': 1, 'tx_per_template': 2, 'points_cap': 12, 'transport': 'real',
+                                         'async_mgr': fi != 1}])
+            n += 2
+        for k in range(4):
+            jobs.append(['w_stress', {'i': 120 + k, 'writers': 3, 'readers': 3, 'seconds': 120, 'max_ops': 100000, 'max_requests': 300, 'transport': 'real',
+                                      'async_mgr': k % 2 == 1, 'chunk_size': 256 if k == 3 else 0}])
     core.fanout(ctx, MODULE, 'dispatch', jobs, timeout=3000)
     ctx.exhaustive = True
-    ctx.extra['exhaustive_part'] = 'lock-granularity schedules within the stated bounds (sub-check 1); the thread stress is sampled'
+    ctx.extra['exhaustive_part'] = ('lock-granularity schedules of ONE request within the stated bounds (sub-check 1) and the directed schedule list of the gate '
+                                    'scheduler; random schedules, mid-commit points beyond the cap and the thread stress are sampled')
     ctx.floor('explore.runs', 300)
     ctx.floor('stress.responses', 200)
     ctx.floor('explore.scheduling_points', 20)
+    ctx.floor('sched.runs', 300 if q else 2000)
+    ctx.floor('sched.tx_while_requests_in_flight', 300 if q else 2000)
+    ctx.floor('sched.tx_while_2plus_requests_in_flight', 60 if q else 600)
+    ctx.floor('sched.runs.readers_3', 10)
+    ctx.floor('sched.runs.tx_4', 20)
+    ctx.floor('midcommit.reader_blocked', 60 if q else 800)
+    ctx.floor('sched_real.runs', 40 if q else 400)
+    ctx.floor('midcommit_real.reader_blocked', 20 if q else 150)
+    ctx.floor('stress_real.responses', 100 if q else 2000)
+    ctx.floor('response.wire_checked', 2000)
     ctx.assumptions += ['a foreign transaction run synchronously at a point where the reader does not hold the MDIB lock is equivalent to a writer '
-                        'thread being scheduled there (a transaction holds the MDIB lock from begin to end)']
+                        'thread being scheduled there (a transaction holds the MDIB lock from begin to end)',
+                        'gate scheduler: exactly one thread runs between two scheduling points (lock events of the MDIB lock and the table locks); '
+                        'schedules that differ only inside such a segment are not distinguished',
+                        'selection rules of the reference: the ones the handlers document (BICEPS message model; R5042 by parent chain)']
 
 
 def dispatch(ctx: core.Ctx, job):
-    globals()[job[0]](ctx, job[1])
+    c0 = time.process_time()
+    try:
+        globals()[job[0]](ctx, job[1])
+    finally:
+        # CPU seconds per job (information for balancing the jobs only - nothing is decided on it)
+        ctx.extra.setdefault('job_cpu_s', []).append(f'{job[0]}:{job[1].get("i")}:{job[1].get("transport", "loop")}={time.process_time() - c0:.1f}')
